@@ -63,6 +63,17 @@ def build_driver(name, mode="tsan", repo=None):
     return exe
 
 
+def kernel_files(name, repo=None):
+    """basenames of the mdtraj sources/headers that make up a driver's kernel (used to attribute sanitizer reports)"""
+    repo = repo or os.environ.get("VERIF_REPO", "/repo")
+    d = DRIVERS[name]
+    out = {os.path.basename(s) for s in d["src"]}
+    for inc in d["inc"] + [os.path.dirname(s) for s in d["src"]]:
+        p = os.path.join(repo, inc)
+        out |= {f for f in os.listdir(p) if f.endswith((".h", ".hpp", ".cpp", ".c"))}
+    return out
+
+
 def build_all(verbose=False):
     out = {}
     for n in DRIVERS:
@@ -92,3 +103,29 @@ def run_tsan(exe, args, threads, jitter=0, seed=1, timeout=300):
         pair = sorted({(f, os.path.basename(fl)) for f, fl in fr[:2]})
         races.append(dict(pair=pair, text=blk[:1500]))
     return dict(rc=p.returncode, stdout=p.stdout, stderr_tail=p.stderr[-800:], races=races)
+
+
+_VGBLOCK = re.compile(r"(==\d+== (?:Conditional jump|Use of uninitialised|Invalid write|Invalid read|Invalid free|Mismatched free)[^\n]*\n(?:==\d+==  [^\n]*\n)+)")
+_VGFRAME = re.compile(r"(?:at|by) 0x[0-9A-F]+: (.+?) \(([^:)]+\.(?:cpp|c|h|hpp)):\d+\)")
+
+
+def run_valgrind(exe, args, threads, timeout=900):
+    """memcheck (with origin tracking) on a plain driver. A report is attributed to mdtraj when a kernel source file is on
+    the faulting stack OR on the stack that created the uninitialised value (the use may surface later in the driver)."""
+    env = dict(os.environ)
+    env.update(GOMPSHIM_THREADS=str(threads), OMP_NUM_THREADS=str(threads))
+    env.pop("LD_PRELOAD", None)
+    p = subprocess.run(["valgrind", "--tool=memcheck", "--error-exitcode=0", "--num-callers=12", "--track-origins=yes", "-q", exe]
+                       + [str(a) for a in args], env=env, stdout=subprocess.PIPE, stderr=subprocess.PIPE, text=True, timeout=timeout)
+    reps = []
+    for blk in _VGBLOCK.findall(p.stderr):
+        head = blk.splitlines()[0]
+        kind = re.sub(r"==\d+== ", "", head)
+        kind = re.sub(r" of size \d+", "", kind).strip()
+        func, ffile = None, None
+        for fn, fl in _VGFRAME.findall(blk):
+            if "driver" not in fl and "gompshim" not in fl:
+                func, ffile = fn.split("(")[0], fl
+                break
+        reps.append(dict(kind=kind, func=func, file=ffile, text=blk[:1200]))
+    return dict(rc=p.returncode, stdout=p.stdout, reports=reps, stderr_tail=p.stderr[-500:])
